@@ -52,6 +52,10 @@ def binder_forms(full):
         f.append(("pluslet %s" % n, lambda xs, b, n=n: cat(I(0), ("plus", cat(("let", [n], xs), ("sub", False, [], cat()))), W("drop"), b)))
         f.append(("starlet %s" % n, lambda xs, b, n=n: cat(I(0), ("star", cat(("let", [n], xs), ("sub", False, [], cat()))), W("drop"), b)))
         f.append(("infixlet %s" % n, lambda xs, b, n=n: cat(("infix", "==", cat(("let", [n], xs), rd(n)), rd(n) if False else xs), b)))
+        # an infix operand binds the name, the other operand reads it: each operand is a scope of its own
+        f.append(("infixlet-other-reads %s" % n, lambda xs, b, n=n: cat(("infix", "!=", cat(("let", [n], I(9)), rd(n)), rd(n)), b)))
+        f.append(("infixlet-other-reads-rev %s" % n, lambda xs, b, n=n: cat(("infix", "!=", rd(n), cat(("let", [n], I(9)), rd(n))), b)))
+        f.append(("infixlet-both %s" % n, lambda xs, b, n=n: cat(("infix", "!=", cat(("let", [n], I(8)), rd(n)), cat(("let", [n], I(9)), rd(n))), b)))
         f.append(("blocklet %s" % n, lambda xs, b, n=n: cat(("block", [], ("let", [n], xs)), W("apply"), b)))
         f.append(("parbindlet %s" % n, lambda xs, b, n=n, m=m: cat(I(0), ("par", [m], ("let", [n], xs)), b)))
     f.append(("let A B", lambda xs, b: cat(("let", ["A", "B"], cat(xs, I(7))), b)))
